@@ -47,14 +47,21 @@ function loadPackage (repo) {
   return require(path.join(repo, 'main.js'))
 }
 
-function frameOf (stackString, file) {
-  // first "at ..." frame: "(path:line:col)" or "at path:line:col"
+function frameOfLine (line) {
+  // "(path:line:col)" or "at path:line:col"; an eval frame is located by its eval origin
+  const ev = /eval at [^(]*\(((?:[A-Za-z]:)?[^():]+):(\d+):(\d+)\)/.exec(line)
+  if (ev) return { path: ev[1], line: Number(ev[2]), col: Number(ev[3]), raw: line.trim(), eval: true }
+  const m = /\(?((?:[A-Za-z]:)?[^():]+):(\d+):(\d+)\)?\s*$/.exec(line)
+  return m ? { path: m[1], line: Number(m[2]), col: Number(m[3]), raw: line.trim() } : { raw: line.trim() }
+}
+
+// every frame of the formatted stack that lies in the files under test (not the harness caller, not node internals)
+function framesOf (stackString) {
   const lines = String(stackString).split('\n').filter((l) => /^\s*at /.test(l))
-  if (!lines.length) return null
-  const ev = /eval at [^(]*\(((?:[A-Za-z]:)?[^():]+):(\d+):(\d+)\)/.exec(lines[0])
-  if (ev) return { path: ev[1], line: Number(ev[2]), col: Number(ev[3]), raw: lines[0].trim(), eval: true }
-  const m = /\(?((?:[A-Za-z]:)?[^():]+):(\d+):(\d+)\)?\s*$/.exec(lines[0])
-  return m ? { path: m[1], line: Number(m[2]), col: Number(m[3]), raw: lines[0].trim() } : { raw: lines[0].trim() }
+  if (!lines.length) return [{ raw: String(stackString) }]
+  const all = lines.map(frameOfLine)
+  const mine = all.filter((f) => typeof f.path === 'string' && f.path.startsWith('/w/'))
+  return mine.length ? mine : [all[0]]
 }
 
 let shared = null
@@ -79,6 +86,16 @@ function runJob (job) {
           ev.has_hook = String(res.content).includes('_ddiast.')
           inUse[step.file] = res.content
           ev.rewrite_error = ''
+          // C16 at the package level: what the package hands back is what a fresh native call gives for this
+          // (configuration, text, file) -- except that a not-modified result carries the caller's text
+          const nat = job.table[text + '\u0000' + step.file] || {}
+          const natStatus = nat.metrics && nat.metrics.status
+          const diffs = []
+          if ((natStatus === 'notmodified' ? text : nat.content) !== res.content) diffs.push('content')
+          if (JSON.stringify(nat.metrics) !== JSON.stringify(res.metrics)) diffs.push('metrics')
+          if (JSON.stringify(nat.literals) !== JSON.stringify(res.literalsResult)) diffs.push('literals')
+          ev.fresh_same = diffs.length === 0
+          ev.fresh_diff = diffs.join(',')
         } catch (e) {
           ev.rewrite_error = String(e && e.message)
           ev.status = 'error'
@@ -93,28 +110,32 @@ function runJob (job) {
           const user = mode === 'handler'
             ? (err, cs) => { structured = cs.map((c) => ({ path: c.getFileName(), line: c.getLineNumber(), col: c.getColumnNumber() })); return 'handled' }
             : undefined
-          let got = null
+          let got = []
           try {
             Error.prepareStackTrace = pkg.getPrepareStackTrace(user)
             const ctx = vm.createContext({ _ddiast: new Proxy({}, { get: () => (x) => x }) })
             vm.runInContext(text, ctx, { filename: step.file })
             try {
               vm.runInContext('boom("x", "y")', ctx, { filename: '/harness/caller.js' })
-              got = { none: true }
+              got = [{ none: true }]
             } catch (e) {
               const s = e.stack
-              // handler path: the first structured frame that has a file name (eval frames have none)
-              got = mode === 'handler'
-                ? ((structured || []).find((f) => typeof f.path === 'string' && f.path !== '/harness/caller.js') || { raw: String(s) })
-                : frameOf(s, step.file)
+              // handler path: every structured frame that has a file name (eval frames have none);
+              // string path: every frame of the formatted stack, eval frames by their origin
+              if (mode === 'handler') {
+                got = (structured || []).filter((f) => typeof f.path === 'string' && f.path.startsWith('/w/'))
+                if (!got.length) got = [{ raw: String(s) }]
+              } else {
+                got = framesOf(s)
+              }
             }
           } catch (e) {
-            got = { prepare_threw: String(e && e.message) }
+            got = [{ prepare_threw: String(e && e.message) }]
             ev.threw = true
           } finally {
             Error.prepareStackTrace = saved
           }
-          ev.frames.push(Object.assign({ mode }, got || {}))
+          for (const g of got) ev.frames.push(Object.assign({ mode }, g || {}))
         }
       } else if (step.op === 'original') {
         // getOriginalPathAndLineFromSourceMap on a file the package knows nothing about / on disk
